@@ -20,6 +20,11 @@ static const uint32_t F_LARGE = 1, F_HARD = 2, F_FULL = 4, F_JIT = 8, F_SECURE =
 struct KeySpec { uint32_t len; uint64_t seed; uint32_t tweak; };
 static const KeySpec KEY_POOL[] = {{12, 1000, 0}, {12, 1001, 0}, {200, 1002, 0}, {12, 1000, 1}, {8, 1000, 0}, {0, 1005, 0}, {32, 1006, 0}, {200, 1002, 2}, {61, 1007, 0}};
 static const int KEY_POOL_N = 9; // {8,1000} is a strict prefix of {12,1000}: bytes are positional in the seed
+// An allocation failure INSIDE randomx_init_cache (the call throws; the caller retries) is expressible in the op language and
+// the executor handles it, but it is not generated: no listed property covers it (C15 is about the three creating calls), and the
+// unchanged library is not failure-atomic there - a failed first initialisation with the EMPTY key followed by a retry is taken
+// for "same key, already initialised" and leaves a half-built cache (found while trying this out; see DESIGN §15.7).
+static const bool kInitCacheFaults = false;
 static const uint32_t INPUT_LENS[] = {76, 0, 1, 127, 128, 129, 1024, 33, 64, 200};
 
 // ------------------------------------------------------------------ builder with a mirror of the contract model
@@ -373,6 +378,12 @@ static void history(Builder &b, const HistoryOpts &ho) {
 			bool in_batch = false; for (int w : vms) if (b.V[w].batch && b.V[w].c == c) in_batch = true;
 			if (in_batch) continue;
 			int k = b.rnd_key();
+			if (kInitCacheFaults && k != b.C[c].key && rng.chance(1, 12)) {
+				// the re-initialisation fails part-way (an allocation request inside it is refused); the caller catches the
+				// exception and repeats the call with the same key
+				Op &o = b.emit(INIT_CACHE); o.c = c; o.key = k; o.fault.push_back(1 + (int)rng.below(9000));
+				b.C[c].key = -2; b.C[c].epoch++;
+			}
 			b.init_cache(c, k);
 			if (ho.checks && rng.chance(1, 2)) { Op &o = b.emit(CACHE_CHECK); o.c = c; }
 		} else if (r < 72) { // redundant init with the same key
@@ -694,6 +705,7 @@ static void gen_c08(Builder &b, bool thorough) {
 		if (rng.chance(1, 5)) { // release + re-allocate instead of re-keying in place (same slot; the heap policy decides the addresses)
 			uint32_t f = b.C[0].flags; b.release_cache(0); b.alloc_cache(0, f, rng.chance(1, 2) ? (seam::HP_REUSE_BIG | seam::HP_REUSE_SMALL) : b.rnd_heap());
 		}
+		if (kInitCacheFaults && rng.chance(1, 6)) { Op &o = b.emit(INIT_CACHE); o.c = 0; o.key = k2; o.fault.push_back(1 + (int)rng.below(9000)); b.C[0].key = -2; b.C[0].epoch++; } // failed attempt first, then the retry
 		b.init_cache(0, k2);
 		b.phase = 3;
 		int n2 = (int)rng.range(1, 4);
